@@ -4,6 +4,19 @@ import json, os
 HERE = os.path.dirname(os.path.dirname(os.path.abspath(__file__)))
 
 CLAIMED = {
+    "C14": dict(
+        technique="const-evaluated phf allow-lists vs spec + loop-shape rule (no early accept in a for-all loop) on the CFG + decision extraction of the node dispatch",
+        text="Decides: allow-lists/schemes/classes/depth equal the specification's; the scheme check cannot accept from inside the attribute loop; text kept, other node kinds removed; "
+             "removed nodes' children not visited, ignored nodes detached with children re-parented, kept elements' attributes cleaned; depth test `>=`; verdict order. "
+             "Does NOT decide what an HTML parser sees in html5ever's output.",
+        note="Trusted: html5ever parser/serializer, phf table layout as evaluated by rustc.",
+        design="DESIGN.md §4 C14"),
+    "C15": dict(
+        technique="table closure check on const-evaluated replacement maps + effect (who-may-call) locality rule + must-visit traversal rule on MIR paths",
+        text="Narrow: decides three structural necessary conditions of idempotence (replacement tables closed under the allow-lists and applied before renaming; verdict functions are local to the node; "
+             "every child of a non-removed node is cleaned). Idempotence / fixpoint as equality of serialized documents is NOT decided.",
+        note="The property's behavioural core (equality of documents) is outside the reach of a sound static argument here; see DESIGN.md §6.",
+        design="DESIGN.md §4 C15"),
     "C20": dict(
         category="translation_validation",
         technique="formula extraction of the helper predicates from MIR + comparison with the C08 spec model under all weak orderings of the levels (4 values per symbol)",
